@@ -27,6 +27,9 @@ Ltac crunch1 :=
   | H : context [is_none ?x] |- _ => is_var x; destruct x
   | H : context [truthy ?x] |- _ => is_var x; destruct x
   | H : context [match ?o with VNone => _ | _ => _ end] |- _ => is_var o; destruct o
+  | H : context [if ?b then _ else _] |- _ => is_var b; destruct b
+  | H : context [Z.eqb ?z _] |- _ => is_var z; destruct z
+  | H : context [Nat.eqb (length ?l) _] |- _ => is_var l; destruct l
   | |- context [match ?o with [] => _ | _ :: _ => _ end] => is_var o; destruct o
   | |- context [is_none ?x] => is_var x; destruct x
   end.
@@ -68,7 +71,20 @@ Proof.
   repeat constructor; cbn; intuition discriminate.
 Qed.
 
+(* the observers read exactly the slots of their own kind (no dtype slot is reported for another one, off = not on,
+   an unset flag reports its default) *)
+Definition default_on (c : cid) : val :=
+  match observe c (SV VNone VNone VNone VNone VNone) with Some d :: _ => d | _ => VNone end.
+Lemma observer_law : forall c sv, observe c sv = spec_observe (kind_of c) (default_on c) sv.
+Proof. intros c [a b c0 d e]; destruct c; cbn; try reflexivity; destruct a; reflexivity. Qed.
+
 Lemma orders_ok_true : orders_ok = true.
+Proof. vm_compute. reflexivity. Qed.
+
+(* FINITE TABLE regenerated from the source: every non-slot class attribute with a constant initial value (a cache
+   such as deterministic_probes.probe_vectors) is reset to None on every path of __enter__ and of __exit__ of the
+   classes that carry it. *)
+Lemma caches_ok_true : caches_ok = true.
 Proof. vm_compute. reflexivity. Qed.
 
 (* The documented meaning of the constructor arguments of the two composite contexts (hand-written
@@ -83,15 +99,26 @@ Definition spec_composite_args (k : kid) (args : list val) : option (list (cid *
   | _, _ => None
   end.
 
+(* the arguments of linalg_dtypes are torch dtypes or None; a dtype is never falsy (token 0 is numeric zero) *)
+Definition dtype_like (v : val) : bool :=
+  match v with VNone => true | VTok z => negb (Z.eqb z 0) | _ => false end.
+Definition args_ok (k : kid) (args : list val) : bool :=
+  match k with k_linalg_dtypes => forallb dtype_like args | _ => true end.
+
 Lemma composite_args_law : forall k args g ps parts,
+  args_ok k args = true ->
   spec_composite_args k args = Some parts -> new k args g = Some ps ->
   map fst ps = map fst parts /\
   Forall2 (fun p q => pinit (fst q) (snd q) (get (fst q) g) = Some (snd p)) ps parts.
 Proof.
-  intros k args g ps parts Hs Hn.
+  intros k args g ps parts Hok Hs Hn.
   destruct k; cbn in Hs; try discriminate Hs;
   repeat (destruct args as [|? args]; try discriminate Hs);
-  inversion Hs; subst; clear Hs; cbn in Hn;
+  inversion Hs; subst; clear Hs; cbn in Hok;
+  repeat match type of Hok with
+         | context [dtype_like ?v] => is_var v; destruct v as [| |[| |]|]; cbn in Hok; try discriminate Hok
+         end;
+  cbn in Hn;
   repeat match type of Hn with
          | match ?x with Some _ => _ | None => _ end = _ => destruct x eqn:?; try discriminate Hn
          end;
